@@ -9,13 +9,13 @@ CONSTANTS
   ReadLens = {9}
   Cells = {1}
   Contigs = {1}
-  Strands = {0, 1}
+  Strands = {0}
   Sites = {0,1,2,3}
   Lens = {1,2}
   Umis = {0}
   Valids = {TRUE}
   MaxFrags = 4
-  Scheds = {1000, 0}
+  Scheds = {1000}
   Poolings = {0, 1}
   Variant = "design"
 INVARIANT Inv_Conservation
